@@ -14,7 +14,8 @@ def run(tier, seed):
                 "optional runs) that the independent X.680 model (vf/checks/c11faults.py:problems) calls unambiguous, and every single-edit mutant of "
                 "each (retag onto a sibling's tag, remove a tag, swap in a sibling's type, make a member OPTIONAL, duplicate an identifier, duplicate an "
                 "enumeration name/value, dangling reference); asn1c (ASan build) must exit 0 iff the model finds no problem, and on rejection print a "
-                "diagnostic and write no file; distinct = distinct module texts")
+                "diagnostic and write no file; plus the project's own verdicts: every shipped compiler-test file marked -SE must be rejected likewise, every file "
+                "marked -OK must pass asn1c -E -F; distinct = distinct module texts")
     chk.assumptions = ["SEQUENCE cases carry no extension additions (the statement speaks of root components)",
                        "COMPONENTS OF and parameterised types are not generated"]
     tc = build.toolchain()
@@ -46,6 +47,21 @@ def run(tier, seed):
             chk.inconcl("model error on catalogue module: %s" % type(e).__name__)
             continue
         jobs.append((fam, m.text(), pr, m.tagdefault))
+    # the project's own verdicts: compiler-test files marked -SE (semantic error) must be rejected by a full compilation,
+    # files marked -OK must pass the parser and the semantic checker (asn1c -E -F, what the marker speaks about)
+    import glob
+    shipped = sorted(glob.glob(os.path.join(tc.repo, "tests/tests-asn1c-compiler/*-SE.asn1"))) + \
+        sorted(glob.glob(os.path.join(tc.repo, "tests/tests-asn1c-compiler/*-OK.asn1")))
+    if quick:
+        shipped = rng.sample(shipped, 40)
+    for f_ in shipped:
+        with open(f_, encoding="latin-1") as fh:
+            txt_ = fh.read()
+        nm_ = os.path.basename(f_)
+        if nm_.endswith("-SE.asn1"):
+            jobs.append(("shipped-SE", txt_, [("marked-semantic-error", nm_, "-")], nm_, []))
+        else:
+            jobs.append(("shipped-OK", txt_, [], nm_, ["-E", "-F"] + (["-fbless-SIZE"] if "blessSize" in nm_ else [])))
     seen_txt = set()
     uniq = []
     for j in jobs:
@@ -54,14 +70,15 @@ def run(tier, seed):
             uniq.append(j)
 
     def one(job):
-        fam, text, pr, td = job
+        fam, text, pr, td = job[:4]
+        flags_ = job[4] if len(job) > 4 else []
         h = hashlib.sha1(text.encode()).hexdigest()[:12]
         d = os.path.join(work, h)
         os.makedirs(os.path.join(d, "o"), exist_ok=True)
-        with open(os.path.join(d, "m.asn1"), "w") as f:
+        with open(os.path.join(d, "m.asn1"), "w", encoding="latin-1") as f:
             f.write(text)
         try:
-            p = subprocess.run([asn1c, "-S", skel, "-D", "o", "m.asn1"], cwd=d, stdout=subprocess.PIPE, stderr=subprocess.PIPE,
+            p = subprocess.run([asn1c, "-S", skel, "-D", "o"] + flags_ + ["m.asn1"], cwd=d, stdout=subprocess.PIPE, stderr=subprocess.PIPE,
                                env=build.tool_env(), timeout=120)
             rc, err = p.returncode, p.stderr.decode("latin-1")
         except subprocess.TimeoutExpired:
@@ -72,12 +89,14 @@ def run(tier, seed):
 
     with ThreadPoolExecutor(build.JOBS) as ex:
         results = list(ex.map(one, uniq))
-    for (fam, text, pr, td), (rc, err, nfiles) in zip(uniq, results):
+    for (fam, text, pr, td), (rc, err, nfiles) in zip([u[:4] for u in uniq], results):
         chk.evaluations += 1
         chk.seen(text)
         diag = "\n".join(l for l in err.split("\n") if "runtime error:" not in l).strip()
         rule = pr[0][0] if pr else "-"
         key = {"family": fam, "model_rule": rule, "tagging": td, "via": (pr[0][2] if pr and len(pr[0]) > 2 else "-")}
+        if fam.startswith("shipped"):
+            key["file"] = td        # the file name travels in the tagging slot of the job
         replay = {"module": text, "model_problems": pr[:5], "asn1c_rc": rc, "stderr": err[-1200:]}
         if rc == -99:
             chk.inconcl("asn1c timeout")
